@@ -227,3 +227,12 @@ def suites(tier, seed):
                   rule="real connection with heartbeats (1 s; thorough: 1/60, 2/2, off) over the mock transport; Connection::close while the broker takes 2.6 heartbeat intervals to answer CloseOk (it keeps sending heartbeats meanwhile): nothing may follow Connection.Close on the wire (the tx heartbeat timer fires during the wait), close returns Ok"),
             Suite("sessions", "machine", lambda: gen(tier, seed), monitor=monitor, nontrivial=nontrivial, canon=mg.canon_nondet, candidate_ok=mg.candidate_ok,
                   rule="random sessions ending in a client- or server-initiated connection close: 0-6 open channels, consumers, calls in flight, data still buffered behind a transport that takes few bytes, submissions racing the close, frames (heartbeat) arriving right after the close, every reply-code class and random texts")]
+
+
+# --- suites of neighbouring properties that also decide this one (cross-listed after wave 6) ---------
+_suites_before_wave6 = suites
+
+
+def suites(tier, seed):
+    m = __import__("props.c06", fromlist=["x"])
+    return [s_ for s_ in m.suites(tier, seed) if s_.name == "frames-then-fault-in-the-loop"] + _suites_before_wave6(tier, seed)
